@@ -1,6 +1,7 @@
 //! Property registry.
 
 pub mod common;
+pub mod p_compile;
 pub mod p_hist;
 pub mod p_meta;
 pub mod p_model;
@@ -8,6 +9,7 @@ pub mod p_partial;
 pub mod p_res;
 pub mod p_scan;
 pub mod p_total;
+pub mod p_variants;
 
 use crate::engine::{CaseRec, Local, Runner, Violation};
 use crate::real::Ctx;
@@ -59,7 +61,7 @@ pub fn all() -> Vec<PropDef> {
         ], rule: "cases = (entry point of 10, config of 128, capacity incl. 0, placement end/start/interior, array at guard page or not, sentinel or empty prefill, runtime backend avx2/sse4.2/scalar via hook H2, buffer). Buffers: G1 grammar-derived with mutations (occasionally 64 KiB values / 300 headers), class-alphabet strings and raw bytes, every prefix length of 10 base messages x 4 placements, interesting bytes at every position of the bases, 30 adversarial scale families x sizes 1 KiB..256 KiB/1 MiB x {whole, truncated, late error, jitter}; all in a release and a debug-assertion/overflow-check build. Oracle: the call returns one of Complete/Partial/Err without signal or panic, Complete(n) has n <= len, canary bytes next to the header array intact. Non-trivial = the parse got past the first start-line field (or kind is headers/chunk with >= 2 bytes) and the buffer abuts a guard page; distinct by hash of (entry,cfg,cap,placement,backend,buffer)" },
         meta_prop!("C02", p_meta::run_c02, p_meta::check_c02, "base buffers of all four kinds (G1 grammar-derived with mutations, bounded-exhaustive header strings under every option combination, long fields of every length 0..=80) x every split point k (all k for len<=400, 64 spread + last 16 beyond), each prefix copied into its own exact-length buffer ending at a guard page. Oracle: with k* the first non-Partial prefix, every longer prefix gives the same Err, or the same Complete(n) with identical fields/headers (as offsets into the base); k* >= n; fields reported with Partial equal those of the final Complete. Chunked re-parsing ends in the one-shot answer because every prefix is covered. Non-trivial = k* >= 8; distinct by hash of (entry,cfg,cap,base)", META_ASSUME),
         meta_prop!("C03", p_meta::run_c03, p_meta::check_c03, "G1 messages with trailing bodies (which contain CRLFCRLF and header-looking lines), lenient-weighted messages, bounded-exhaustive header strings x option combinations; all 128 configs, capacities, entry points. Oracle: independent LF-split scan for the first empty line ('' or CR) after the start line; Complete(n) must end exactly there (n <= len); Partial must not coexist with a strictly empty line; chunk size: n = 2 + first CRLF, Partial => no CRLF. Non-trivial = Complete with >=1 header / >1 line / trailing bytes, or Partial with >=1 complete line; distinct by hash of (entry,cfg,cap,buffer)", META_ASSUME),
-        meta_prop!("C04", p_meta::run_c04, p_meta::check_c04, "part (a): G1 messages under every usable runtime backend (hook H2), lenient-weighted messages, bounded-exhaustive header strings; all outcomes. Oracle: pointer arithmetic — every non-empty returned slice lies in [buf,buf+len), on Complete(n) inside buf[..n] and in strictly increasing non-overlapping order method<path|reason<name0<value0<.... Non-trivial = >=1 header with non-empty value, or Partial/Err with a start-line field set; distinct by hash of (entry,cfg,cap,backend,buffer). part (b) (compile-time corpus) is reported in coverage.compile_corpus", META_ASSUME),
+        meta_prop!("C04", p_meta::run_c04_all, p_meta::check_c04_any, "part (a): G1 messages under every usable runtime backend (hook H2), lenient-weighted messages, bounded-exhaustive header strings; all outcomes. Oracle: pointer arithmetic — every non-empty returned slice lies in [buf,buf+len), on Complete(n) inside buf[..n] and in strictly increasing non-overlapping order method<path|reason<name0<value0<.... Non-trivial = >=1 header with non-empty value, or Partial/Err with a start-line field set; distinct by hash of (entry,cfg,cap,backend,buffer). part (b) (compile-time corpus) is reported in coverage.compile_corpus", META_ASSUME),
         meta_prop!("C05", p_meta::run_c05, p_meta::check_c05, "256 byte values x every position of 12 bases (each header option exercised) x 4 configs, lane phases 0..=70/140 x 256 values x 6 elements (target, reason, name, value, folded value, ignored-line tail), bounded-exhaustive header strings x option combinations, G1 default- and lenient-weighted messages. Oracle: predicates transcribed from the statement on every Complete (tchar method/names, target class + UTF-8, version, code re-read from the buffer, reason/value classes, trimming, fold rules, no NUL / bare CR in buf[..n]) and UTF-8 validity of every &str on every outcome. Non-trivial = Complete with the swept byte inside buf[..n], or a field containing obs-text / HTAB / a fold; distinct by hash of (entry,cfg,cap,buffer)", META_ASSUME),
         PropDef { id: "C18", run: p_hist::run, check: p_hist::check, max_buf: 80_000, assumptions: META_ASSUME, rule: "stateful: a history = 1..4 earlier calls (entry point among the kind's four, any config, buffer = fresh G1 message / prefix of the probe / the probe itself / a fixed 3-header message; or the README loop: growing prefixes of the probe with the probe's entry and config) on one Request/Response and one header array (uninit variants get their own arrays), then a probe call; plus every ordered pair of 8 fixed messages x 4x4 entry points x 3 capacities. Histories are generated as choice bytes (vec(op) + interpreter) and shrink as one value. Oracle: probe on the reused value vs probe on a fresh value whose array length equals the reused value's headers.len() before the probe: identical status; on Complete identical fields and headers. Non-trivial = the history contains a Complete or Partial call and the probe gets past its first start-line field; distinct by hash of (probe entry,cfg,cap,probe buffer,ops,history buffers)" },
         PropDef { id: "C11", run: p_partial::run, check: p_partial::check, max_buf: 80_000, assumptions: &[
@@ -71,6 +73,11 @@ pub fn all() -> Vec<PropDef> {
             "word size 8 (x86-64) only for the SWAR backend",
             "SSE4.2 / AVX2 backends are run only if the host CPU has them (it does: see notes)",
         ], rule: "for each backend x class (SWAR x3, SSE4.2 x2, AVX2 x2, emulated NEON x3, dispatching entry x3 under each forced cell value): every length 0..=100 x every position x all 256 byte values (other bytes in class, 2-3 fillers) with the buffer ending at a guard page; all-in-class buffers of every length 0..=200 at 66 placements; one offending byte x 32 interior alignments; every pair of offending positions with 3 start cursors; SWAR block functions over a boundary alphabet^8 (must never step over an out-of-class byte); the class predicates on all 256 bytes. Oracle: cursor after the call == start + position of the first byte outside the class as written in the statement. Non-trivial = an offending byte at p>=1 or length >= 8; distinct by hash of (backend,class,cell,start,placement,bytes). exhaustive over the stated grid" },
+        PropDef { id: "C13", run: p_variants::run, check: p_variants::check, max_buf: 80_000, assumptions: &[
+            "thread timing is stressed (barrier-released first parses with the cached feature cell reset, in-process thousands of times and in fresh processes), not enumerated: the harness does not own the scheduler; what is enumerated instead is every value the cell can hold (hook H2), which bounds what any interleaving can make a reader observe",
+            "x86-64 variants only; the host CPU has AVX2 and SSE4.2 so all compile-time variants can be executed",
+            "exactly-one-implementation is decided by compilation: lib.rs uses all three scanner names through glob re-exports, so none => E0425 and two => E0659",
+        ], rule: "(i) a deterministic generated corpus (G1 default- and lenient-weighted cases of all kinds/configs/capacities/entry points, lane-phase families for target/value/reason/name lengths 0..=80 x 6 offending bytes, chunk digit counts 0..=20) is parsed by vdigest built as: runtime-detect (production, reference), runtime with hooks forced to cell 0/1/2/3 and other cell values on a sub-corpus, compile-time sse4.2 / avx2 / both, avx2 with compile-time detection disabled, SIMD disabled, no_std; release and debug-assertion profiles; each case at buffer alignments 0/1/19 mod 64; per-case 64-bit hashes of (status, offset, every field as offset+bytes, headers) must equal the reference. (ii) all 32 switch combinations: cargo check of /repo. (iii) cold-start races: 16 threads released by a barrier into a parse with the cell reset, 20k/500k rounds in-process and 24/400 fresh processes. Non-trivial = corpus case with a run of >= 16 target-class bytes (takes a vector path); distinct by hash of (entry,cfg,cap,buffer)" },
         meta_prop!("C15", p_meta::run_c15, p_meta::check_c15, "part 1: mostly-valid G1 messages and bounded-exhaustive header strings; each default-Complete buffer is re-parsed under all 127 other configs and must give the identical normalised result (sole exception: reason with leading SP stripped under allow_multiple_spaces_in_response_status_delimiters). part 2: any buffer x config pairs differing only in other-kind options (random pairs on G1, all pairs on header strings) must agree on status, fields and headers. Non-trivial = default-Complete with >=1 header (part 1) / result past the first start-line field (part 2); distinct by hash of (entry,cfg,cfg2,cap,buffer)", META_ASSUME),
         meta_prop!("C16", p_meta::run_c16, p_meta::check_c16, "G1 messages x configs x capacities around k: Request::parse / ParserConfig::parse_request / the two uninit variants (and the response entry points; non-default configs compare the two config-taking ones) must agree on status, fields, headers and written array slots; parse_headers(h) vs 6 request/response start lines + h under the default config and equal capacity (offset shifted by the start-line length), on G1 header blocks and bounded-exhaustive header strings x capacities {0,1,2,8}. Non-trivial = buffer has a colon and the parse got past the start line; distinct by hash of (entry,cfg,cap,buffer)", META_ASSUME),
         meta_prop!("C17", p_meta::run_c17, p_meta::check_c17, "G1 blocks with k=0..12 lines x capacity around k x 9 entry points x configs, and k=0..6 structured lines x every capacity 0..=8 x 128 configs x 9 entry points x 3 tails; arrays pre-filled with sentinel headers (initialised entries) or 0xA5 poison (uninit entries), abutting a guard page, canary on the other side. Oracle: with m = slots written under capacity max(64,lines+8): m<=N => identical outcome, m>N => Err(TooManyHeaders); on Complete headers.len() = slots written = prefix 0..len, other slots bit-identical, exposed elements inside the buffer; after Partial/Err `headers` is (ptr,len)-identical to before the call and every changed slot holds a header from this buffer. Non-trivial = >=1 header line stored and capacity <= m+1; distinct by hash of (entry,cfg,cap,buffer)", META_ASSUME),
